@@ -341,7 +341,7 @@ def sdmx_reference(mol, dm, pts, pows, nd=0, nR=140, ns=28, lebedev=13):
 
 @st.composite
 def st_sdmx_case(draw):
-    return {"mol": draw(G.st_mol(min_atoms=1, max_atoms=3, max_elec=16, levels=(0,), bases=("sto-3g", "6-31g"), min_elec=2)),
+    return {"mol": draw(G.st_mol(min_atoms=1, max_atoms=3, max_elec=16, levels=(0,), bases=("sto-3g", "6-31g", "cc-pvdz"), min_elec=2)),
             "sdmx": draw(G.st_sdmx()), "dm": draw(G.st_dm()), "npts": draw(st.integers(8, 24)),
             "seed": draw(st.integers(0, 2**31 - 1))}
 
